@@ -354,10 +354,15 @@ pub fn rv_cmp(a: &RV, b: &RV) -> Ord3 {
 
 pub fn to_dval(v: &RV) -> DVal {
     let mut stack: Vec<*const RefCell<RTable>> = Vec::new();
-    to_dval_rec(v, &mut stack)
+    let mut budget = crate::dval::SNAPSHOT_NODE_BUDGET;
+    to_dval_rec(v, &mut stack, &mut budget)
 }
 
-fn to_dval_rec(v: &RV, stack: &mut Vec<*const RefCell<RTable>>) -> DVal {
+fn to_dval_rec(v: &RV, stack: &mut Vec<*const RefCell<RTable>>, budget: &mut usize) -> DVal {
+    if *budget == 0 {
+        return DVal::Other("too-large".into());
+    }
+    *budget -= 1;
     match v {
         RV::Nil => DVal::Nil,
         RV::Int(i) => DVal::Int(*i),
@@ -372,7 +377,7 @@ fn to_dval_rec(v: &RV, stack: &mut Vec<*const RefCell<RTable>>) -> DVal {
                 return DVal::Other("too-deep".into());
             }
             stack.push(p);
-            let out = t.borrow().entries.iter().map(|(k, v)| (to_dval_rec(k, stack), to_dval_rec(v, stack))).collect();
+            let out = t.borrow().entries.iter().map(|(k, v)| (to_dval_rec(k, stack, budget), to_dval_rec(v, stack, budget))).collect();
             stack.pop();
             DVal::Table(out)
         }
